@@ -594,3 +594,98 @@ func ZZBatchedHold() {
 	rt.Reach("held")
 	zzSameOutcome("c06-held-value", first.kind, ga, wa)
 }
+
+// ZZBatchedSlowConsumer (C13): a 3-key get whose consumer takes each response only when nothing
+// else can move, while the pooled connection is cut after the first reply of every attempt
+// (first connection and first reconnection). The retry marker must reach the get even though
+// its goroutine is busy handing a response to the consumer: the outcome is an error, or all
+// three keys -- never two keys and no error.
+func ZZBatchedSlowConsumer() {
+	nk := 2
+	root, direct, _ := zzStores(nk)
+	first := root.NewConn("first")
+	first.FaultAt, first.FaultKind = 1, model.FaultCloseBeforeReply
+	dials := 0
+	sock := "fake"
+	if rt.Symbolic() {
+		rt.Subst("net.Dial", func(network, address string) (net.Conn, error) {
+			c := root.NewConn("reconnected")
+			if dials == 0 {
+				c.FaultAt, c.FaultKind = 1, model.FaultCloseBeforeReply
+			}
+			dials++
+			return zzNewPipe(c), nil
+		})
+	} else {
+		sock = zzServeFaulty(root)
+	}
+	c := zzConn(first, 0, 1)
+	c.sock = sock
+	h := zzHandler([]*conn{c})
+	d := std.NewHandler(direct)
+	cmd := &zzCmd{kind: bGet, keys: [][]byte{model.Keys[0], model.Keys[1], model.Keys[0]}, opaques: []uint32{10, 11, 12}, quiets: []bool{false, false, false}}
+	req := common.GetRequest{Keys: [][]byte{model.Keys[0], model.Keys[1], model.Keys[0]}, Opaques: []uint32{10, 11, 12}, Quiet: []bool{false, false, false}}
+	out, errs := h.Get(req)
+	var got zzOutcome
+	for out != nil || errs != nil {
+		rt.WaitQuiescent() // the slow consumer
+		select {
+		case r, ok := <-out:
+			if !ok {
+				out = nil
+				continue
+			}
+			got.resp = append(got.resp, common.GetEResponse{Key: r.Key, Data: r.Data, Flags: r.Flags, Opaque: r.Opaque, Quiet: r.Quiet, Miss: r.Miss})
+		case e, ok := <-errs:
+			if !ok {
+				errs = nil
+				continue
+			}
+			if e != nil {
+				got.fatal = true
+			}
+		}
+	}
+	want := zzRun(d, cmd)
+	rt.Reach("get-ended")
+	if !got.fatal {
+		rt.Assert("c13-no-partial-answer-presented-as-complete", len(got.resp) == len(want.resp))
+	} else {
+		rt.Assert("c13-no-more-responses-than-keys", len(got.resp) <= len(want.resp))
+	}
+}
+
+// zzServeFaulty (native replay): like zzServe, but the first accepted connection is closed
+// after its first reply.
+func zzServeFaulty(root *model.MC) string {
+	dir, err := os.MkdirTemp("", "zzverif")
+	if err != nil {
+		panic(err)
+	}
+	path := dir + "/mc.sock"
+	ln, err := net.Listen("unix", path)
+	if err != nil {
+		panic(err)
+	}
+	go func() {
+		n := 0
+		for {
+			s, err := ln.Accept()
+			if err != nil {
+				return
+			}
+			mc := root.NewConn("reconnected")
+			if n == 0 {
+				mc.FaultAt, mc.FaultKind = 1, model.FaultCloseBeforeReply
+			}
+			n++
+			go func(s net.Conn) {
+				p := zzNewPipe(mc)
+				go func() { io.Copy(p, s); p.Close() }()
+				io.Copy(s, p)
+				s.Close()
+			}(s)
+		}
+	}()
+	return path
+}
